@@ -22,19 +22,20 @@ EXEMPT = {
 
 
 class St3:
-    __slots__ = ('nz', 'rel', 'ints', 'back')
+    __slots__ = ('nz', 'rel', 'ints', 'back', 'pend')
 
-    def __init__(self, nz=None, rel=None, ints=None, back=None):
+    def __init__(self, nz=None, rel=None, ints=None, back=None, pend=None):
         self.nz = nz or {}
         self.rel = rel or {}
         self.ints = ints or {}
         self.back = back or {}     # bytes of the same string known to lie behind the cursor
+        self.pend = pend or {}     # result of a search (strstr, strchr): that many non-terminator bytes *if* it is not NULL
 
     def copy(self):
-        return St3(dict(self.nz), dict(self.rel), dict(self.ints), dict(self.back))
+        return St3(dict(self.nz), dict(self.rel), dict(self.ints), dict(self.back), dict(self.pend))
 
     def __eq__(self, o):
-        return self.nz == o.nz and self.rel == o.rel and self.ints == o.ints and self.back == o.back
+        return self.nz == o.nz and self.rel == o.rel and self.ints == o.ints and self.back == o.back and self.pend == o.pend
 
     def __ne__(self, o):
         return not self.__eq__(o)
@@ -45,7 +46,8 @@ def join3(a, b):
     rel = {k: min(a.rel[k], b.rel[k]) for k in set(a.rel) & set(b.rel)}
     ints = {k: a.ints[k] for k in set(a.ints) & set(b.ints) if a.ints[k] == b.ints[k]}
     back = {k: min(a.back[k], b.back[k], 64) for k in set(a.back) & set(b.back)}
-    return St3(nz, rel, ints, back)
+    pend = {k: min(a.pend[k], b.pend[k]) for k in set(a.pend) & set(b.pend)}
+    return St3(nz, rel, ints, back, pend)
 
 
 class Analyzer3:
@@ -200,11 +202,34 @@ class Analyzer3:
                 self.do_call(ev.node, st, record)
         return st
 
+    def search_result(self, rhs, st):
+        """n when rhs is strstr(p, "lit") / strchr(p, c) / strpbrk(p, "set") on a tracked in-string cursor p: the result is NULL or
+        points at n non-terminator bytes of the same string"""
+        r = strip_casts(rhs)
+        if r.get('k') != 'call' or callee_name(r) not in ('strstr', 'strchr', 'strpbrk', 'strrchr') or len(r['args']) < 2:
+            return None
+        pn = self.norm(r['args'][0])
+        if not pn or pn[0] not in self.tracked or st.nz.get(pn[0], NEG) < max(pn[1], 0):
+            return None
+        a1 = strip_casts(r['args'][1])
+        if callee_name(r) == 'strstr':
+            return len(a1['bytes']) if a1.get('k') == 'str' else 0
+        if callee_name(r) == 'strpbrk':
+            return 1
+        c = const_val(r['args'][1])
+        return 1 if (c is not None and c != 0) else 0
+
     def assign(self, st, name, rhs, record=False, node=None):
         st.nz.pop(name, None)
         st.back.pop(name, None)
+        st.pend.pop(name, None)
         for k in [k for k in st.rel if k[0] == name]:
             del st.rel[k]
+        sr = self.search_result(rhs, st)
+        if sr is not None and name in self.readkeys:
+            self.tracked.add(name)
+            st.pend[name] = sr
+            return
         pn = self.norm(rhs)
         if pn and pn[0] in self.tracked and name in self.readkeys:
             nz = st.nz.get(pn[0], NEG)
@@ -235,8 +260,14 @@ class Analyzer3:
             if op == '=':
                 st.nz.pop(key, None)
                 st.back.pop(key, None)
+                st.pend.pop(key, None)
                 for k in [k for k in st.rel if k[0] == key]:
                     del st.rel[k]
+                sr = self.search_result(a['r'], st)
+                if sr is not None and key in self.readkeys:
+                    self.tracked.add(key)
+                    st.pend[key] = sr
+                    return
                 pn = self.norm(a['r'])
                 if key.startswith('*') and key in self.tracked and record:
                     # the caller goes on reading at the cursor handed back: it has to be a position inside the string
@@ -382,6 +413,20 @@ class Analyzer3:
     def refine_cond(self, e, truth, st):
         e = strip_casts(e)
         k = e.get('k')
+        # NULL test of a search result
+        tested, nonnull = None, None
+        if k == 'ref' and self.key(e) in st.pend:
+            tested, nonnull = self.key(e), truth
+        elif k == 'bin' and e['op'] in ('==', '!=') and (is_null_const(e['l']) or is_null_const(e['r'])):
+            other = e['l'] if is_null_const(e['r']) else e['r']
+            if self.key(other) in st.pend:
+                tested, nonnull = self.key(other), (e['op'] == '!=') == truth
+        if tested is not None:
+            st = st.copy()
+            n = st.pend.pop(tested)
+            if nonnull:
+                st.nz[tested] = max(st.nz.get(tested, NEG), n)
+            return st
         if k in ('idx', 'un') and access(e) is not None:
             return self.nonzero_at(e, st) if truth else st
         p = cmp_parts(e)
